@@ -771,3 +771,48 @@ func oracleHeaderBinding(c *Ctx, rule string, m *ssa.Function) {
 	w := core.CutReach(core.CutSpec{Fn: m, Cut: func(b *ssa.BasicBlock, i int) bool { return g(core.EdgeFacts(b, i)) }, Target: core.SuccessTarget(m, nil)})
 	r.Check(w == nil, rule, core.FuncName(m), p.Pos(m.Pos()), "the looked-up header is returned only if its hash equals the requested hash", "the oracle can return a header whose hash was not compared with the requested one (a lying peer, or a cache filled before the comparison, chooses the header that bodies, receipts and state proofs are checked against): "+p.PathString(w))
 }
+
+// networkStoresOnlyValidated: in the sub-network type `Network` of package pkg, every write to the
+// content store is reached only after ValidateContent(this key, this content) returned nil. The
+// gate is per item: a verdict kept in a variable that a later item of the batch overwrites, or a
+// second loop that stores what a first loop "validated", is not a gate for the item stored.
+func networkStoresOnlyValidated(c *Ctx, rule, pkg string) int {
+	p, r := c.P, c.R
+	sp := p.SSAPkg(pkg)
+	nput := 0
+	for _, fn := range p.ModuleFuncs() {
+		if sp == nil || fn.Pkg != sp || fn.Signature.Recv() == nil || core.TypeName(fn.Signature.Recv().Type()) != "Network" {
+			continue
+		}
+		name := core.FuncName(fn)
+		var validates []*ssa.Call
+		core.Calls(fn, func(ci ssa.CallInstruction) {
+			cc := ci.Common()
+			if cc.IsInvoke() && cc.Method.Name() == "ValidateContent" {
+				if call, ok := ci.(*ssa.Call); ok {
+					validates = append(validates, call)
+				}
+			}
+		})
+		n := 0
+		core.Calls(fn, func(ci ssa.CallInstruction) {
+			if !strings.HasSuffix(core.CalleeID(ci), "portalwire.(*PortalProtocol).Put") {
+				return
+			}
+			n++
+			nput++
+			a := ci.Common().Args
+			g := core.ErrNilGate("validate", func(c2 *ssa.Call) bool {
+				for _, v := range validates {
+					if c2 == v && core.SameValue(v.Call.Args[0], a[1]) && core.SameValue(v.Call.Args[1], a[3]) {
+						return true
+					}
+				}
+				return false
+			})
+			w := core.InstrGuarded(ci, g.Edge, nil)
+			r.Check(w == nil, rule, fmt.Sprintf("%s put #%d", name, n), p.Pos(ci.Pos()), "stored only after ValidateContent(same key, same content) returned nil", "content can be stored without having been validated under its key (the verdict that guards the write is not this item's own): "+p.PathString(w))
+		})
+	}
+	return nput
+}
